@@ -15,6 +15,7 @@ import (
 	"fmt"
 	"os"
 	"runtime"
+	"strconv"
 	"strings"
 	"sync/atomic"
 	"time"
@@ -37,7 +38,7 @@ const (
 
 // Evt is one harness event (JSON form = replay form).
 type Evt struct {
-	Op     string `json:"op"` // call resume resumesave add new release rotate cleanup gcgens relbuckets
+	Op     string `json:"op"` // call resume resumesave resumepark relock add new release rotate cleanup gcgens relbuckets
 	C      int    `json:"c,omitempty"`
 	K      int    `json:"k,omitempty"`
 	T      int    `json:"t,omitempty"`
@@ -68,6 +69,10 @@ func (e Evt) coq() string {
 		return fmt.Sprintf("EResumeSave %d", e.T)
 	case "add":
 		return fmt.Sprintf("EAdd %d", e.T)
+	case "resumepark":
+		return fmt.Sprintf("EResumePark %d", e.T)
+	case "relock":
+		return fmt.Sprintf("ERelock %d", e.T)
 	case "new":
 		return "ENew"
 	case "release":
@@ -98,9 +103,14 @@ type res struct {
 type thr struct {
 	c, k    int
 	kind    int
-	status  int // -1 running, 0/1/2/3/4 returned, 10 in loader, 11 waiting, 12 parked at the schedule point after save's unlock
+	status  int // -1 running, 0/1/2/3/4 returned, 10 in loader, 11 waiting, 12 parked at the schedule point after save's unlock,
+	// 13 a waiter whose awaited loader failed, parked inside reportReattempt (after wg.Wait() returned and e.wg != nil
+	// was seen, before getOrCreate re-takes Cache.mu and re-examines payload[key])
 	atHook  chan struct{}
 	hookGo  chan struct{}
+	atRetry chan struct{}
+	retryGo chan struct{}
+	goid    atomic.Int64
 	val     int64
 	enter   chan struct{}
 	resume  chan struct{}
@@ -130,6 +140,53 @@ type world struct {
 	esz     uint64
 	feat    map[string]bool // schedule features, for the evidence distribution
 	lastRec int64
+	// parkRetry: waiters that learn that their awaited loader failed are parked inside Metrics.ReattemptsTotal.Inc(),
+	// which getOrCreate calls (reportReattempt) outside of the lock right before `c.mu.Lock(); e, ok = c.payload[key]`
+	parkRetry atomic.Bool
+}
+
+// hookCounter is a prometheus counter that runs a callback on Inc (no source hook needed: the cache reports
+// "reattempts" exactly between a waiter's wake-up after a failed load and its re-lock).
+type hookCounter struct {
+	prometheus.Counter
+	onInc func()
+}
+
+func (h *hookCounter) Inc() {
+	if h.onInc != nil {
+		h.onInc()
+	}
+	h.Counter.Inc()
+}
+
+// goid: the id of the calling goroutine ("goroutine 123 [running]: ...")
+func goid() int64 {
+	var buf [64]byte
+	n := runtime.Stack(buf[:], false)
+	f := strings.Fields(string(buf[:n]))
+	if len(f) < 2 {
+		return -1
+	}
+	id, err := strconv.ParseInt(f[1], 10, 64)
+	if err != nil {
+		return -1
+	}
+	return id
+}
+
+// onReattempt runs in the goroutine of a waiter, inside getOrCreate, after reportReattempt was reached.
+func (w *world) onReattempt() {
+	if !w.parkRetry.Load() {
+		return
+	}
+	g := goid()
+	for _, t := range w.thr {
+		if t.goid.Load() == g {
+			t.atRetry <- struct{}{}
+			<-t.retryGo
+			return
+		}
+	}
 }
 
 // hookPark: the goroutine that is to be parked at verifhook.At("cache.save.after-unlock") (the
@@ -151,12 +208,15 @@ func installHook() {
 func newCounter() prometheus.Counter { return prometheus.NewCounter(prometheus.CounterOpts{Name: "x"}) }
 
 func newWorld(lim uint64) *world {
+	re := &hookCounter{Counter: newCounter()}
 	m := &cache.Metrics{HitsTotal: newCounter(), MissTotal: newCounter(), PanicsTotal: newCounter(),
-		LockWaitsTotal: newCounter(), WaitsTotal: newCounter(), ReattemptsTotal: newCounter(),
+		LockWaitsTotal: newCounter(), WaitsTotal: newCounter(), ReattemptsTotal: re,
 		SizeRead: newCounter(), SizeOccupied: newCounter(), SizeReleased: newCounter(),
 		MapsRecreated: newCounter(), MissLatency: newCounter()}
-	return &world{lim: lim, cl: cache.NewCleaner(lim, nil), met: m, ids: map[any]int{},
+	w := &world{lim: lim, cl: cache.NewCleaner(lim, nil), met: m, ids: map[any]int{},
 		latest: map[[2]int]int{}, dirty: map[[2]int]int{}, feat: map[string]bool{}}
+	re.onInc = w.onReattempt
+	return w
 }
 
 func (w *world) waits() float64 {
@@ -191,7 +251,8 @@ func dec(b []byte) int64 {
 
 const settleTimeout = 20 * time.Second
 
-// settle waits until goroutine id returned, entered its loader, or blocked in wg.Wait.
+// settle waits until goroutine id returned, entered its loader, blocked in wg.Wait, or (only while parkRetry is set)
+// was parked between its wake-up after a failed load and its re-lock.
 func (w *world) settle(id int, w0 float64) {
 	t := w.thr[id]
 	deadline := time.Now().Add(settleTimeout)
@@ -204,6 +265,10 @@ func (w *world) settle(id int, w0 float64) {
 			return
 		case r := <-t.done:
 			t.status, t.val = r.kind, r.val
+			return
+		case <-t.atRetry:
+			t.status = 13
+			w.feat["sched:waiter-parked-between-wakeup-and-relock"] = true
 			return
 		default:
 		}
@@ -224,13 +289,21 @@ func (w *world) settle(id int, w0 float64) {
 func (w *world) call(e Evt) {
 	id := len(w.thr)
 	t := &thr{c: e.C, k: e.K, kind: e.Kind, status: -1, enter: make(chan struct{}), resume: make(chan struct{}),
-		done: make(chan res, 1), atHook: make(chan struct{}), hookGo: make(chan struct{})}
+		done: make(chan res, 1), atHook: make(chan struct{}), hookGo: make(chan struct{}),
+		atRetry: make(chan struct{}), retryGo: make(chan struct{})}
+	t.goid.Store(-2)
+	for _, x := range w.thr {
+		if x.status == 13 && x.c == e.C && x.k == e.K {
+			w.feat["sched:another-caller-of-the-key-inside-the-retry-window"] = true
+		}
+	}
 	w.thr = append(w.thr, t)
 	c := w.caches[e.C]
 	myErr := errors.New("loader error")
 	myPanic := &struct{ id int }{id}
 	w0 := w.waits()
 	go func() {
+		t.goid.Store(goid())
 		defer func() {
 			if r := recover(); r != nil {
 				if r == any(myPanic) {
@@ -270,7 +343,10 @@ func (w *world) call(e Evt) {
 	w.settle(id, w0)
 }
 
-func (w *world) resume(id int, toHook bool) {
+// resume lets the loader of creator id return. toHook: the (successful) creator is parked at the schedule point after
+// save's unlock. park: the waiters of its entry that find the load failed are parked before they re-take the lock
+// (status 13) instead of running on into their retry.
+func (w *world) resume(id int, toHook, park bool) {
 	t := w.thr[id]
 	if t.status != 10 || (toHook && t.kind != kVal) {
 		w.dead = fmt.Sprintf("resume of goroutine %d which is not in its loader", id)
@@ -284,10 +360,17 @@ func (w *world) resume(id int, toHook bool) {
 	}
 	if len(wakers) > 0 && t.kind != kVal {
 		w.feat["sched:waiter-reattempts-after-failed-creator"] = true
+		if len(wakers) > 1 {
+			w.feat["sched:several-waiters-behind-failed-creator"] = true
+		}
 	}
 	w0 := w.waits()
 	if toHook {
 		hookPark.Store(t)
+	}
+	if park {
+		w.parkRetry.Store(true)
+		defer w.parkRetry.Store(false)
 	}
 	t.resume <- struct{}{}
 	select {
@@ -328,7 +411,28 @@ func (w *world) do(e Evt) {
 	case "call":
 		w.call(e)
 	case "resume":
-		w.resume(e.T, false)
+		w.resume(e.T, false, false)
+	case "resumepark":
+		w.resume(e.T, false, true)
+	case "relock":
+		t := w.thr[e.T]
+		if t.status != 13 {
+			w.dead = fmt.Sprintf("relock of goroutine %d which is not parked before its retry", e.T)
+			return
+		}
+		w0 := w.waits()
+		t.status = -1
+		t.retryGo <- struct{}{}
+		w.settle(e.T, w0)
+		switch {
+		case w.dead != "":
+		case t.status == 10:
+			w.feat["sched:retry-creates-a-new-entry"] = true
+		case t.status == 11:
+			w.feat["sched:retry-waits-for-a-later-creator"] = true
+		case t.status == 0:
+			w.feat["sched:retry-served-from-a-later-creators-entry"] = true
+		}
 	case "fill":
 		// N sequential Gets, all of fresh keys (each loader runs at once) or all of cached keys (no loader runs);
 		// no goroutines, no parking
@@ -343,7 +447,7 @@ func (w *world) do(e Evt) {
 			w.thr = append(w.thr, &thr{c: e.C, k: e.K + i, kind: kVal, status: 0, val: dec(v)})
 		}
 	case "resumesave":
-		w.resume(e.T, true)
+		w.resume(e.T, true, false)
 	case "add":
 		t := w.thr[e.T]
 		if t.status != 12 {
@@ -633,9 +737,19 @@ func (w *world) drain() {
 			w.do(Evt{Op: "add", T: p[0]})
 			continue
 		}
+		if p := w.atRetry(); len(p) > 0 {
+			w.do(Evt{Op: "relock", T: p[0]})
+			continue
+		}
 		p := w.parked()
 		if len(p) == 0 {
 			return
+		}
+		// several waiters behind a failing creator: which of them becomes the next creator would be decided by the Go
+		// scheduler, so they are parked before their retry and re-locked one by one
+		if w.thr[p[0]].kind != kVal && w.waitersOf(p[0]) > 1 {
+			w.do(Evt{Op: "resumepark", T: p[0]})
+			continue
 		}
 		w.do(Evt{Op: "resume", T: p[0]})
 	}
@@ -653,6 +767,12 @@ func (w *world) abandon() {
 		if t.status == 12 {
 			select {
 			case t.hookGo <- struct{}{}:
+			default:
+			}
+		}
+		if t.status == 13 {
+			select {
+			case t.retryGo <- struct{}{}:
 			default:
 			}
 		}
@@ -736,11 +856,33 @@ func (w *world) liveCaches() []int {
 
 func (w *world) hasParkedOn(c int) bool {
 	for _, t := range w.thr {
-		if t.c == c && (t.status == 10 || t.status == 11) {
+		if t.c == c && (t.status == 10 || t.status == 11 || t.status == 13) {
 			return true
 		}
 	}
 	return false
+}
+
+// atRetry returns the goroutines parked between their wake-up after a failed load and their re-lock.
+func (w *world) atRetry() []int {
+	var p []int
+	for i, t := range w.thr {
+		if t.status == 13 {
+			p = append(p, i)
+		}
+	}
+	return p
+}
+
+// waitersOf: the goroutines blocked in wg.Wait() on creator id's entry.
+func (w *world) waitersOf(id int) int {
+	n := 0
+	for _, t := range w.thr {
+		if t.status == 11 && t.waitsOn == id && t.c == w.thr[id].c && t.k == w.thr[id].k {
+			n++
+		}
+	}
+	return n
 }
 
 // gcSafe: no creator is parked on a generation that is not the last one any more (pattern R2).
@@ -753,23 +895,27 @@ func (w *world) gcSafe() bool {
 	return true
 }
 
-func randCall(r *rng.R, w *world, nextV *int64) (Evt, bool) {
+func randCall(r *rng.R, w *world, nextV *int64, conc bool) (Evt, bool) {
 	lc := w.liveCaches()
 	if len(lc) == 0 {
 		return Evt{}, false
 	}
 	for try := 0; try < 8; try++ {
 		c, k := rng.Pick(r, lc), r.Intn(5)
-		// at most one waiter behind a creator that is going to fail (which waiter becomes the
-		// next creator is decided by the Go scheduler, not by the harness)
+		// a caller of the very key some waiter is about to retry on (the window between its wake-up and its re-lock)
+		if p := w.atRetry(); conc && len(p) > 0 && r.Bool() {
+			t := w.thr[rng.Pick(r, p)]
+			c, k = t.c, t.k
+		}
+		// sequential schedules: at most one waiter behind a creator that is going to fail (which waiter becomes the
+		// next creator is decided by the Go scheduler, not by the harness); concurrent schedules: up to three, they
+		// are then parked before their retry (resumepark) and re-locked one by one
 		if cr, ok := w.latest[[2]int{c, k}]; ok && w.thr[cr].status == 10 && w.thr[cr].kind != kVal {
-			n := 0
-			for _, t := range w.thr {
-				if t.status == 11 && t.waitsOn == cr {
-					n++
-				}
+			n, max := w.waitersOf(cr), 1
+			if conc {
+				max = 3
 			}
-			if n >= 1 {
+			if n >= max {
 				continue
 			}
 		}
@@ -799,6 +945,11 @@ func (w *world) resumeEvt(r *rng.R, id int, conc bool) Evt {
 	if conc && w.thr[id].kind == kVal && r.Chance(1, 3) {
 		return Evt{Op: "resumesave", T: id}
 	}
+	// waiters of a failing creator are parked between their wake-up and their re-lock: always when there are several
+	// (their order is then the harness's), every second time when there is one
+	if n := w.waitersOf(id); w.thr[id].kind != kVal && (n > 1 || (conc && n == 1 && r.Bool())) {
+		return Evt{Op: "resumepark", T: id}
+	}
 	return Evt{Op: "resume", T: id}
 }
 
@@ -817,7 +968,7 @@ func genRandom(r *rng.R, cw *casefile.Writer, conc bool) {
 		}
 		switch {
 		case x < 46:
-			if e, ok := randCall(r, w, &nextV); ok {
+			if e, ok := randCall(r, w, &nextV, conc); ok {
 				w.do(e)
 				id := len(w.thr) - 1
 				if w.dead == "" && w.thr[id].status == 10 && (!conc || r.Chance(3, 10)) {
@@ -825,7 +976,9 @@ func genRandom(r *rng.R, cw *casefile.Writer, conc bool) {
 				}
 			}
 		case x < 58 && conc:
-			if p := w.inSave(); len(p) > 0 && r.Bool() {
+			if p := w.atRetry(); len(p) > 0 && r.Bool() {
+				w.do(Evt{Op: "relock", T: rng.Pick(r, p)})
+			} else if p := w.inSave(); len(p) > 0 && r.Bool() {
 				w.do(Evt{Op: "add", T: rng.Pick(r, p)})
 			} else if p := w.parked(); len(p) > 0 {
 				w.do(w.resumeEvt(r, rng.Pick(r, p), conc))
@@ -997,6 +1150,91 @@ func genRebuild(r *rng.R, cw *casefile.Writer) {
 	w.emit(cw, "payload-rebuild", true)
 }
 
+// retry-window schedules: >= 3 callers of ONE key. Creator A (loader returns an error or panics) is parked in its
+// loader, 1..3 waiters block behind it, A fails with the waiters parked between their wake-up and their re-lock
+// (inside reportReattempt). Then, in random order: further callers of the key arrive in that window (their loaders
+// return a value / an error / panic, at once or later), parked creators finish (plain, parked after save's unlock, or
+// again with their waiters parked before the retry), waiters re-take the lock one by one (each must hit the valid
+// entry of a later caller, wait for a later caller's loading entry, or create the entry when the key is absent),
+// and now and then a rotation / cleaning pass / CleanEmptyGenerations runs in between.
+func genRetry(r *rng.R, cw *casefile.Writer) {
+	w := newWorld(rng.Pick(r, []uint64{0, 300, 700, 3000}))
+	w.do(Evt{Op: "new"})
+	if r.Chance(1, 3) {
+		w.do(Evt{Op: "new"})
+	}
+	c, k := r.Intn(len(w.caches)), r.Intn(3)
+	var v int64 = 100
+	kind := func(pv int) int {
+		switch x := r.Intn(100); {
+		case x < pv:
+			return kVal
+		case x < pv+(100-pv)/2:
+			return kErr
+		}
+		return kPanic
+	}
+	call := func(kd int) {
+		v++
+		w.do(Evt{Op: "call", C: c, K: k, V: v, Sz: int64(r.Range(0, 400)), Kind: kd, ErrAPI: r.Bool()})
+	}
+	if r.Chance(1, 3) { // something else in the cache, so that the cleaner has work
+		v++
+		w.do(Evt{Op: "call", C: c, K: 7, V: v, Sz: int64(r.Range(100, 400))})
+		w.do(Evt{Op: "resume", T: len(w.thr) - 1})
+		if r.Bool() {
+			w.do(Evt{Op: "rotate"})
+		}
+	}
+	fk := kErr
+	if r.Bool() {
+		fk = kPanic
+	}
+	call(fk) // A
+	a := len(w.thr) - 1
+	for i := r.Range(1, 3); i > 0 && w.dead == ""; i-- {
+		call(kind(60)) // the waiters
+	}
+	if r.Chance(1, 5) {
+		w.do(Evt{Op: rng.Pick(r, []string{"rotate", "cleanup", "gcgens"})})
+	}
+	w.do(Evt{Op: "resumepark", T: a})
+	late := 0
+	for i := 0; i < 14 && w.dead == ""; i++ {
+		ret, par, sav := w.atRetry(), w.parked(), w.inSave()
+		if len(ret)+len(par)+len(sav) == 0 {
+			break
+		}
+		x := r.Intn(100)
+		switch {
+		case x < 30 && late < 3 && len(ret) > 0:
+			late++
+			call(kind(60)) // a later caller inside the window
+			if id := len(w.thr) - 1; w.dead == "" && w.thr[id].status == 10 && r.Bool() {
+				w.do(w.resumeEvt(r, id, true)) // ... that finishes its load at once
+			}
+		case x < 60 && len(ret) > 0:
+			w.do(Evt{Op: "relock", T: rng.Pick(r, ret)})
+		case x < 85 && len(par) > 0:
+			id := rng.Pick(r, par)
+			if w.thr[id].kind != kVal && w.waitersOf(id) > 0 {
+				w.do(Evt{Op: "resumepark", T: id})
+			} else {
+				w.do(w.resumeEvt(r, id, true))
+			}
+		case x < 92 && len(sav) > 0:
+			w.do(Evt{Op: "add", T: rng.Pick(r, sav)})
+		case x >= 92:
+			w.do(Evt{Op: rng.Pick(r, []string{"rotate", "cleanup", "gcgens"})})
+		}
+	}
+	w.drain()
+	if r.Bool() {
+		w.do(Evt{Op: "cleanup"})
+	}
+	w.emit(cw, "retry-window", true)
+}
+
 // rotation schedules: n caches, a rotation (through Rotate, or through markStale when Cleanup has to mark the last
 // generation stale as well) from whose pos-th SetGeneration call a NewCache -> AddBucket is started; then loads on
 // the new cache and cleaning passes that drop the old generation
@@ -1124,6 +1362,34 @@ func witnesses(cw *casefile.Writer) {
 	w.do(Evt{Op: "gcgens"})
 	w.do(Evt{Op: "add", T: 1})
 	w.emit(cw, "witness-R4", true)
+	// M9 (regression stream, strict; Props.v: C18_retry_without_recheck_refuted / _two_loaders): three callers of one key.
+	// A's loader fails while B waits; B is woken and parked before its re-lock; C loads and caches the key (a) or is
+	// still inside its loader (b); B re-takes the lock and must be served from / wait for C's entry. With the waiter's
+	// retry loop turned into `if ok` B wrote a fresh entry over C's: accounted 336, live 168, the key loaded twice.
+	for _, fk := range []int{kErr, kPanic} {
+		w = newWorld(2000)
+		w.do(Evt{Op: "new"})
+		w.do(Evt{Op: "call", C: 0, K: 1, Kind: fk})
+		w.do(Evt{Op: "call", C: 0, K: 1, V: 7, Sz: 100})
+		w.do(Evt{Op: "resumepark", T: 0})
+		w.do(Evt{Op: "call", C: 0, K: 1, V: 8, Sz: 100})
+		w.do(Evt{Op: "resume", T: 2})
+		w.do(Evt{Op: "relock", T: 1})
+		w.drain()
+		w.do(Evt{Op: "release", C: 0})
+		w.emit(cw, "witness-M9", true)
+		w = newWorld(2000)
+		w.do(Evt{Op: "new"})
+		w.do(Evt{Op: "call", C: 0, K: 1, Kind: fk})
+		w.do(Evt{Op: "call", C: 0, K: 1, V: 7, Sz: 100})
+		w.do(Evt{Op: "resumepark", T: 0})
+		w.do(Evt{Op: "call", C: 0, K: 1, V: 8, Sz: 100})
+		w.do(Evt{Op: "relock", T: 1})
+		w.do(Evt{Op: "resume", T: 2})
+		w.drain()
+		w.do(Evt{Op: "release", C: 0})
+		w.emit(cw, "witness-M9", true)
+	}
 	// R3: Release while a creator is inside its loader (outside the stated domain: callers finish
 	// before a cache is released; counted, not reported)
 	w = newWorld(2000)
@@ -1185,9 +1451,9 @@ func main() {
 	}
 	installHook()
 	r := rng.New(*seed)
-	nSeq, nConc, maxN, nRebuild := 1000, 1000, 5, 16
+	nSeq, nConc, maxN, nRebuild, nRetry := 1000, 1000, 5, 16, 300
 	if *tier == "thorough" {
-		nSeq, nConc, maxN, nRebuild = 20000, 20000, 6, 300
+		nSeq, nConc, maxN, nRebuild, nRetry = 20000, 20000, 6, 300, 10000
 	}
 	witnesses(cw)
 	// exhaustive release subsets, ascending release order, for 1..maxN caches (6 in the thorough tier);
@@ -1222,6 +1488,9 @@ func main() {
 	cw.Extra["exhaustive_scope"] = fmt.Sprintf("every subset of released caches for 1..%d caches sharing a cleaner (every release order for <= 3 caches)", maxN)
 	for i := 0; i < nRebuild; i++ {
 		genRebuild(r, cw)
+	}
+	for i := 0; i < nRetry; i++ {
+		genRetry(r, cw)
 	}
 	for i := 0; i < nSeq/4; i++ {
 		genBoundary(r, cw)
